@@ -913,17 +913,21 @@ func ensurePathExists(pd *container, path string, options *ApplyOptions) error {
 				}
 			}
 		} else {
+			// A value that is neither an object nor an array is in the way:
+			// nothing can be created beneath it. Leave it to the add itself
+			// to report, as it does without the option, that the location
+			// cannot be reached.
 			if isArray(*target.raw) {
 				doc, err = target.intoAry()
 
 				if err != nil {
-					return err
+					return nil
 				}
 			} else {
 				doc, err = target.intoDoc(options)
 
 				if err != nil {
-					return err
+					return nil
 				}
 			}
 		}
